@@ -80,6 +80,38 @@ theorem extract_sampled_eq_batch (T : CharTable) (hT : Consistent T) (o : Opts) 
     extractSampled T o cfg pick items = extract T o items :=
   SampledLemmas.extractSampled_eq_extract T hT o hsz cfg pick items hsmall
 
+/-! ### for every Size setting
+
+`analyse_fragments` reads the cap on remembered strings as `max(cap, 1)` (rexpy.py:1063): what the code computes for
+the options `o` is `extract T o.norm` / `extractSampled T o.norm`. The hypothesis `1 ≤ cap` of the theorems above is
+then met by every Size setting, so the statements hold with no condition on the sizes at all. -/
+
+theorem norm_cap (o : Opts) : 1 ≤ o.norm.sizes.maxStringsInGroup := Nat.le_max_right _ _
+
+/-- **Extraction is sound for every Size setting** (no hypothesis on the cap) -/
+theorem extract_sound_every_size (T : CharTable) (hT : Consistent T) (o : Opts)
+    (hprune : o.maxPatterns = none ∧ o.minStrings ≤ 1) (items : List (Option Line × Nat)) :
+    ∃ ps E w, extract T o.norm items = some (ps, E, w) ∧
+      ∀ s ∈ keptExamples o items, ∃ p ∈ ps, Matches T E (wrapWs w p) s :=
+  extract_sound T hT o.norm (norm_cap o) hprune items
+
+/-- **soundness under sampling for every Size setting** -/
+theorem extract_sampled_sound_every_size (T : CharTable) (hT : Consistent T) (o : Opts) (cfg : SampleCfg) (pick : Pick)
+    (hp : PickOK pick) (hprune : o.maxPatterns = none ∧ o.minStrings ≤ 1) (items : List (Option Line × Nat))
+    (ps : List Pattern) (E : List Char) (w : Bool) (h : extractSampled T o.norm cfg pick items = some (ps, E, w)) :
+    ∀ s ∈ keptExamples o items, ∃ p ∈ ps, Matches T E (wrapWs w p) s :=
+  extract_sampled_sound T hT o.norm (norm_cap o) cfg pick hp hprune items ps E w h
+
+/-- with no more distinct examples than Size.do_all the sampled path is the batch path, for every Size setting -/
+theorem extract_sampled_eq_batch_every_size (T : CharTable) (hT : Consistent T) (o : Opts)
+    (cfg : SampleCfg) (pick : Pick) (items : List (Option Line × Nat))
+    (hsmall : (clean o.stripOpt o.removeEmpties items).strings.length ≤ cfg.doAll) :
+    extractSampled T o.norm cfg pick items = extract T o.norm items :=
+  extract_sampled_eq_batch T hT o.norm (norm_cap o) cfg pick items hsmall
+
+/- a cap of 0 is such a setting: the normalised options keep two strings, the raw ones would keep one -/
+example : ({ sizes := { maxStringsInGroup := 0 } } : Opts).norm.sizes.maxStringsInGroup = 1 := by decide
+
 /-- **Tie**: the constants the model hard-codes are the ones in the source today
     (Generated/Rexpy.lean is rewritten from tdda/rexpy/rexpy.py on every run) -/
 theorem tie_constants :
